@@ -1,18 +1,219 @@
-import RzilVerif.Model.Compile
+import RzilVerif.Lemmas.ExprFold
+import RzilVerif.Props.C02
 /-!
-# C09 — compile-time evaluation (first version; the fold-soundness theorems are being proved separately)
+# C09 — compile-time evaluation (constant folding)
+
+* `normInt_spec` (in `Lemmas/ExprBits.lean`): `BitVec.ofInt w (normInt t v) = BitVec.ofInt w v`; `normInt_inRange`,
+  `normInt_of_inRange`.
+* `fold_sound_fixed`: whatever the repaired lowering reports as a folded literal (`PKind.lit r` / `PKind.boolLit r`)
+  IS the C value of the expression, in the C type of the expression.
+* `fold_un_sound`, `fold_bin_sound`, `fold_cmp_sound`, `fold_tern_sound`: at each of the four folding sites the folded
+  result evaluates to the same value, and has the same type, as the unfolded run-time evaluation.
+* `fold_asCode_eq_fixed_*` under `FoldSafe*`: where the code's folding (on unbounded Python integers, types by
+  suffix only) coincides with the repaired one; T3 witnesses for each excluded class.
 -/
 namespace Rzil
 
-/-- C11 6.4.4.1 versus the code's suffix-only typing: they agree on small literals … -/
-theorem litType_agree_small (v : Nat) (hex : Bool) (h : v < 2 ^ 31) : litTypeC v hex "" = litTypeCode "" := by
-  simp [litTypeC, litTypeCode, h]
+/-! ## soundness of the folded results (repaired lowering) -/
 
-/-- … and differ on an unsuffixed literal that does not fit `int` (known finding). -/
-example : litTypeC 0x100000000 true "" = ⟨true, 64⟩ ∧ litTypeCode "" = ⟨true, 32⟩ := by decide
-example : litTypeC 0xffffffff true "" = ⟨false, 32⟩ ∧ litTypeC 4294967295 false "" = ⟨true, 64⟩ := by decide
+/-- **C09** a reported literal is the C value: if the lowering of `e` is a `Number` of value `r`, then `e` evaluates
+    in C to `r` (in the type of `e`, in whose range `r` lies), and the IL is the constant `r` of that type. -/
+theorem fold_sound_fixed (ms : MacroSem) (σ : MState) (asg : List String) (e : CExpr) (vC : Val) (ce : CE) (r : Int)
+    (hms : MsOK ms) (hwf : WFE σ e = true) (hC : evalC ms σ e = .ok vC)
+    (hI : compileExpr ⟨asg, Cfg.fixed⟩ e = .ok ce) (hk : ce.kind = .lit r) :
+    ce.il = .const ce.ty.signed ce.ty.width r ∧ vtCT ce.ty = typeOfC e ∧
+    vC = .bv (typeOfC e).width (BitVec.ofInt (typeOfC e).width r) ∧
+    InRangeI (typeOfC e).signed (typeOfC e).width r ∧
+    evalPure ms σ [] ce.il = .ok vC := by
+  have hs := (good_all ms σ asg hms e hwf vC ce hC hI).1
+  obtain ⟨x, hx⟩ := hs.bv
+  subst hx
+  obtain ⟨hf, ht, hw, hr, hxv, hil⟩ := hs.lit_inv hk
+  obtain ⟨-, hev, -⟩ := hs.int_inv hf
+  exact ⟨hil, ht, by rw [hxv], hr, hev⟩
 
-/-- `normInt` is the identity on values already in range (unsigned). -/
-example : normInt ⟨false, 32, 1⟩ 5 = 5 ∧ normInt ⟨false, 32, 1⟩ (-1) = 4294967295 ∧ normInt ⟨true, 32, 1⟩ 4294967295 = -1 := by decide
+/-- …and a folded comparison (`Bool` object) is the C truth value -/
+theorem fold_sound_fixed_bool (ms : MacroSem) (σ : MState) (asg : List String) (e : CExpr) (vC : Val) (ce : CE) (r : Bool)
+    (hms : MsOK ms) (hwf : WFE σ e = true) (hC : evalC ms σ e = .ok vC)
+    (hI : compileExpr ⟨asg, Cfg.fixed⟩ e = .ok ce) (hk : ce.kind = .boolLit r) :
+    ce.il = (if r then .btrue else .bfalse) ∧ vC = .bv 32 (if r then 1 else 0) := by
+  have hs := (good_all ms σ asg hms e hwf vC ce hC hI).1
+  have hko := hs.kindOK
+  simp only [KindOK, hk] at hko
+  refine ⟨hko.1, ?_⟩
+  cases hs with
+  | int x hf => rw [hf] at hko; cases hko.2
+  | bool b hf hw hs' ht hev hv hk' =>
+    rw [hko.1] at hev
+    rw [hv]
+    cases b <;> cases r <;> simp_all [evalPure, boolVal]
 
+/-- non-vacuity: `-(1 + 2)` folds to −3 -/
+example : ∃ ce, compileExpr ⟨[], Cfg.fixed⟩ (.un "-" (.bin "+" (.lit 1 false "") (.lit 2 false ""))) = .ok ce ∧ ce.kind = .lit (-3) := by
+  refine ⟨_, by simp [compileExpr_un, compileExpr_bin, compileExpr_lit, bind, Except.bind, cfgsimp, binBody, foldBin]; rfl, ?_⟩
+  simp [unOfCE, litTypeC, CT.toVT, VT.c11Cast, VT.promoted, cfgsimp, normInt]
+
+/-! ## the four folding sites: folded = unfolded run-time evaluation -/
+
+/-- site 1, unary `-`/`~` of a literal -/
+theorem fold_un_sound {ms σ ce te v0} {x : BitVec te.width} (op : String) (hs : Sim ms σ ce te (.bv te.width x))
+    (hk : ce.kind = .lit v0) :
+    evalPure ms σ [] (unOfCE Cfg.fixed op ce).il = evalPure ms σ [] (unRun Cfg.fixed op ce).il ∧
+    vtCT (unOfCE Cfg.fixed op ce).ty = vtCT (unRun Cfg.fixed op ce).ty := by
+  have h1 := sim_unFold op hs hk
+  have h2 := sim_unRun op hs
+  exact h1.1.agree h2.1 (by rw [h1.2, h2.2])
+
+/-- site 2, `+ - *` of two literals: the folded `Number` equals what `compileBin` (promotion, usual arithmetic
+    conversions, run-time operator) computes -/
+theorem fold_bin_sound {ms σ asg op ca cb ta tb va vb cr vC} {x : BitVec ta.width} {y : BitVec tb.width}
+    (ha : Sim ms σ ca ta (.bv ta.width x)) (hb : Sim ms σ cb tb (.bv tb.width y))
+    (hka : ca.kind = .lit va) (hkb : cb.kind = .lit vb)
+    (hop : (op == "+" || op == "-" || op == "*") = true)
+    (hrun : compileBin ⟨asg, Cfg.fixed⟩ op ca cb = .ok cr)
+    (hC : binC op (.bv (ta.common tb).width (convBits ta (ta.common tb) x))
+                  (.bv (ta.common tb).width (convBits tb (ta.common tb) y)) = .ok vC) :
+    evalPure ms σ [] (foldBin Cfg.fixed op ca cb va vb).il = evalPure ms σ [] cr.il ∧
+    vtCT (foldBin Cfg.fixed op ca cb va vb).ty = vtCT cr.ty := by
+  have h1 := foldBin_good ha hb hka hkb hop hC
+  have h2 := compileBin_good ha hb hrun hC
+  exact h1.1.agree h2.1 (by rw [h1.2, h2.2])
+
+/-- site 3, a comparison of two literals -/
+theorem fold_cmp_sound {ms σ ca cb ta tb va0 vb0} {x : BitVec ta.width} {y : BitVec tb.width} (op : String)
+    (hsa : Sim ms σ ca ta (.bv ta.width x)) (hsb : Sim ms σ cb tb (.bv tb.width y))
+    (hka : ca.kind = .lit va0) (hkb : cb.kind = .lit vb0) :
+    evalPure ms σ [] (foldCmp Cfg.fixed op ca cb va0 vb0).il = evalPure ms σ [] (cmpOfCE Cfg.fixed op ca cb).il ∧
+    vtCT (foldCmp Cfg.fixed op ca cb va0 vb0).ty = vtCT (cmpOfCE Cfg.fixed op ca cb).ty :=
+  (sim_cmpFold op hsa hsb hka hkb).agree (sim_cmpRun op hsa hsb) rfl
+
+/-- site 4, `?:` with a constant condition: the selected arm, converted to the common type of BOTH arms -/
+theorem fold_tern_sound {ms σ cc ca cb tc ta tb vc bc} {x : BitVec ta.width} {y : BitVec tb.width}
+    (hsc : Sim ms σ cc tc vc) (hbc : truthy vc = .ok bc)
+    (hsa : Sim ms σ ca ta (.bv ta.width x)) (hsb : Sim ms σ cb tb (.bv tb.width y))
+    (hk : (∃ v, cc.kind = .lit v) ∨ (∃ r, cc.kind = .boolLit r)) :
+    evalPure ms σ [] (ternOfCE Cfg.fixed cc ca cb).il = evalPure ms σ [] (ternRun Cfg.fixed cc ca cb).il ∧
+    vtCT (ternOfCE Cfg.fixed cc ca cb).ty = vtCT (ternRun Cfg.fixed cc ca cb).ty := by
+  have h1 := sim_ternFold hsc hbc hsa hsb hk
+  have h2 := sim_ternRun hsc hbc hsa hsb
+  exact h1.1.agree h2.1 (by rw [h1.2, h2.2])
+
+/-- non-vacuity of the site theorems: a literal operand satisfies `Sim` with its kind `lit` -/
+example (ms : MacroSem) (σ : MState) :
+    Sim ms σ { il := numberIL ⟨true, 32, 1⟩ 5, ty := ⟨true, 32, 1⟩, kind := .lit 5 } ⟨true, 32⟩ (.bv 32 5) :=
+  Sim.int (t := ⟨true, 32⟩) 5 (by decide) rfl (by simp [numberIL, evalPure]) rfl
+    (by simp only [KindOK, numberIL, true_and]; exact ⟨by decide, by decide, by decide⟩)
+
+/-! ## T2 for folding: where the code's folding equals the repaired one -/
+
+/-- unary: the literal is in the range of its (promoted) type, unary minus only on a signed literal, result in range -/
+def FoldSafeUn (op : String) (ce : CE) : Bool := unSafe op ce
+/-- `+ - *`: both literals and the result are in the range of the common type -/
+def FoldSafeBin (op : String) (ca cb : CE) (va vb : Int) : Bool :=
+  inRangeVT (VT.c11Cast ca.ty cb.ty).1 va && inRangeVT (VT.c11Cast ca.ty cb.ty).1 vb &&
+  inRangeVT (VT.c11Cast ca.ty cb.ty).1 (if op == "+" then va + vb else if op == "-" then va - vb else va * vb)
+/-- comparison: both literals are in the range of the common type (e.g. literals of the same type) -/
+def FoldSafeCmp (ca cb : CE) (va vb : Int) : Bool :=
+  inRangeVT (VT.c11Cast ca.ty cb.ty).1 va && inRangeVT (VT.c11Cast ca.ty cb.ty).1 vb
+/-- constant `?:`: both arms at least `int` wide and of equal type -/
+def FoldSafeTern (ca cb : CE) : Bool := decide (32 ≤ ca.ty.width) && decide (32 ≤ cb.ty.width) && ca.ty.eqv cb.ty
+
+theorem fold_asCode_eq_fixed_un (op : String) (ce : CE) (h : FoldSafeUn op ce = true) :
+    unOfCE Cfg.asCode op ce = unOfCE Cfg.fixed op ce := unOfCE_asCode_eq_fixed op ce h
+
+theorem fold_asCode_eq_fixed_bin (op : String) (ca cb : CE) (va vb : Int) (h : FoldSafeBin op ca cb va vb = true) :
+    foldBin Cfg.asCode op ca cb va vb = foldBin Cfg.fixed op ca cb va vb := foldBin_asCode_eq_fixed op ca cb va vb h
+
+theorem fold_asCode_eq_fixed_cmp (op : String) (ca cb : CE) (va vb : Int) (h : FoldSafeCmp ca cb va vb = true) :
+    foldCmp Cfg.asCode op ca cb va vb = foldCmp Cfg.fixed op ca cb va vb := foldCmp_asCode_eq_fixed op ca cb va vb h
+
+theorem fold_asCode_eq_fixed_tern (cc ca cb : CE) (hk : (∃ v, cc.kind = .lit v) ∨ (∃ r, cc.kind = .boolLit r))
+    (h : FoldSafeTern ca cb = true) :
+    ternOfCE Cfg.asCode cc ca cb = ternOfCE Cfg.fixed cc ca cb := by
+  have hs : ternSafe (.imm "" false) cc ca cb = true := by
+    unfold ternSafe
+    rcases hk with ⟨v, hk⟩ | ⟨r, hk⟩ <;> simp only [hk] <;> exact h
+  have := ternOfCE_asCode_eq_fixed (.imm "" false) cc ca cb hs
+  rw [normTy_of_not rfl] at this
+  exact this.symm
+
+/-- **C09 T2** at the level of expressions: `FoldSafe` is the restriction of the carve-out `CarveE` (C02) to the
+    folding sites — literal values in range of their suffix-only type = their C11 type (`litTypeCode = litTypeC`),
+    unary minus only on signed literals, no wrapping (`inRangeVT`), comparisons of literals in range of the common
+    type, constant `?:` whose arms have equal types at least `int` wide. -/
+def FoldSafe (asg : List String) (e : CExpr) : Bool := CarveE asg e
+
+theorem fold_asCode_eq_fixed (env : CEnv) (e : CExpr) (h : FoldSafe env.assigned e = true) :
+    compileExpr { env with cfg := Cfg.asCode } e = compileExpr { env with cfg := Cfg.fixed } e :=
+  expr_asCode_eq_fixed env e h
+
+/-- literals: the suffix-only type is the C11 type -/
+theorem fold_asCode_eq_fixed_lit (env : CEnv) (v : Nat) (h : Bool) (sfx : String) (hs : litTypeCode sfx = litTypeC v h sfx) :
+    compileExpr { env with cfg := Cfg.asCode } (.lit v h sfx) = compileExpr { env with cfg := Cfg.fixed } (.lit v h sfx) := by
+  simp only [compileExpr_lit, cfgsimp, if_true, Bool.false_eq_true, if_false, hs]
+
+example : FoldSafeBin "+" { il := .btrue, ty := ⟨true, 32, 1⟩, kind := .lit 1 } { il := .btrue, ty := ⟨true, 32, 1⟩, kind := .lit 2 } 1 2 = true := by
+  decide
+example : FoldSafeUn "-" { il := .btrue, ty := ⟨true, 32, 1⟩, kind := .lit 1 } = true := by decide
+example : FoldSafeCmp { il := .btrue, ty := ⟨true, 32, 1⟩, kind := .lit 1 } { il := .btrue, ty := ⟨true, 32, 1⟩, kind := .lit 2 } 1 2 = true := by
+  decide
+example : FoldSafeTern { il := .btrue, ty := ⟨true, 32, 1⟩, kind := .plain } { il := .btrue, ty := ⟨true, 32, 1⟩, kind := .lit 2 } = true := by
+  decide
+example : litTypeCode "" = litTypeC 5 false "" := by decide
+
+/-- whole expressions: T2 of C02 (`expr_asCode_eq_fixed`) applies; literal arithmetic within range is carved in -/
+example : CarveE [] (.bin "+" (.un "-" (.lit 1 false "")) (.bin "*" (.lit 3 false "") (.lit 4 false "LL"))) = true := by decide
+example : CarveE [] (.tern (.cmp "<" (.lit 1 false "") (.lit 2 false "")) (.lit 3 false "") (.lit 4 false "")) = true := by decide
+
+/-! ## T3: witnesses for each excluded class -/
+namespace T3
+open Rzil.T3
+
+/-- `0x100000000` unsuffixed: `long long` in C (value 2³²), a 32-bit `st32` of value 0 for the code -/
+theorem lit_big_C (ms σ) : evalC ms σ (.lit 0x100000000 true "") = .ok (.bv 64 0x100000000) := by
+  have h : litTypeC 0x100000000 true "" = ⟨true, 64⟩ := by decide
+  rw [evalC_lit, h]; rfl
+theorem lit_big_asCode (ms σ) : ∃ ce, compileExpr (A []) (.lit 0x100000000 true "") = .ok ce ∧
+    evalPure ms σ [] ce.il = .ok (.bv 32 0) := by
+  refine ⟨_, by simp [A, compileExpr_lit, cfgsimp]; rfl, ?_⟩
+  simp [numberIL, evalPure, litTypeCode, CT.toVT]
+
+/-- `-1U`: `UINT_MAX` (unsigned) in C; the code folds to the signed literal −1 (type `st32`) -/
+def eNegU := CExpr.un "-" (.lit 1 false "U")
+theorem negU_carved : CarveE [] eNegU = false := by decide
+theorem negU_C_type : typeOfC eNegU = ⟨false, 32⟩ := by decide
+theorem negU_asCode_type : ∃ ce, compileExpr (A []) eNegU = .ok ce ∧ ce.ty.signed = true ∧ ce.kind = .lit (-1) := by
+  refine ⟨_, by simp [A, eNegU, compileExpr_un, compileExpr_lit, bind, Except.bind, cfgsimp]; rfl, ?_⟩
+  simp [unOfCE, litTypeCode, CT.toVT, VT.promoted, cfgsimp]
+theorem negU_fixed_type : ∃ ce, compileExpr (F []) eNegU = .ok ce ∧ ce.ty.signed = false ∧ ce.kind = .lit 4294967295 := by
+  refine ⟨_, by simp [F, eNegU, compileExpr_un, compileExpr_lit, bind, Except.bind, cfgsimp]; rfl, ?_⟩
+  simp [unOfCE, litTypeC, CT.toVT, VT.promoted, cfgsimp, normInt]
+
+/-- `-1 < 1U`: false in C (−1 converts to `UINT_MAX`); the code compares the Python integers: true -/
+def eCmpMixed := CExpr.cmp "<" (.un "-" (.lit 1 false "")) (.lit 1 false "U")
+theorem cmpMixed_carved : CarveE [] eCmpMixed = false := by decide
+theorem cmpMixed_asCode : ∃ ce, compileExpr (A []) eCmpMixed = .ok ce ∧ ce.il = .btrue := by
+  refine ⟨_, by simp [A, eCmpMixed, compileExpr_cmp, compileExpr_un, compileExpr_lit, bind, Except.bind, cfgsimp]; rfl, ?_⟩
+  simp [cmpBody, foldCmp, unOfCE, litTypeCode, CT.toVT, VT.promoted, cfgsimp]
+theorem cmpMixed_fixed : ∃ ce, compileExpr (F []) eCmpMixed = .ok ce ∧ ce.il = .bfalse := by
+  refine ⟨_, by simp [F, eCmpMixed, compileExpr_cmp, compileExpr_un, compileExpr_lit, bind, Except.bind, cfgsimp]; rfl, ?_⟩
+  simp [cmpBody, foldCmp, unOfCE, litTypeC, CT.toVT, VT.promoted, VT.c11Cast, cfgsimp, normInt]
+theorem cmpMixed_C (ms σ) : evalC ms σ eCmpMixed = .ok (.bv 32 0) := by
+  simp [eCmpMixed, evalC_cmp, evalC_un, evalC_lit, bind, Except.bind, convC, convBits, litTypeC, typeOfC, CT.common,
+    CT.promote, cmpVals, cmpC, boolVal]
+  decide
+
+/-- `1 ? RsV : 1ULL`: C converts the live arm `RsV` (int) to `unsigned long long`; the code returns it as it is -/
+def eTernConst := CExpr.tern (.lit 1 false "") rs (.lit 1 false "ULL")
+theorem ternConst_carved : CarveE [] eTernConst = false := by decide
+theorem ternConst_C_type : typeOfC eTernConst = ⟨false, 64⟩ := by decide
+theorem ternConst_asCode_type : ∃ ce, compileExpr (A []) eTernConst = .ok ce ∧ ce.ty = ⟨true, 32, 1⟩ := by
+  refine ⟨_, by simp [A, eTernConst, rs, compileExpr_tern, compileExpr_reg, compileExpr_lit, bind, Except.bind, cfgsimp]; rfl, ?_⟩
+  simp [ternOfCE, cfgsimp, regVT, s32, CT.toVT]
+theorem ternConst_fixed_type : ∃ ce, compileExpr (F []) eTernConst = .ok ce ∧ ce.ty = ⟨false, 64, 1⟩ := by
+  refine ⟨_, by simp [F, eTernConst, rs, compileExpr_tern, compileExpr_reg, compileExpr_lit, bind, Except.bind, cfgsimp]; rfl, ?_⟩
+  simp [ternOfCE, cfgsimp, regVT, s32, CT.toVT, litTypeC, promotionCast, VT.promoted, castOperands, VT.eqv, VT.c11Cast,
+    initACast, VT.hasFlag, VT.gBOOL]
+
+end T3
 end Rzil
